@@ -3455,10 +3455,19 @@ static void scan_globals(void) {
     }
 
     // Find another definition of the same identifier.
+    // Another tentative definition counts only if it precedes this
+    // one in the list, so that exactly one of them survives.
     Obj *var2 = globals;
-    for (; var2; var2 = var2->next)
-      if (var != var2 && var2->is_definition && !strcmp(var->name, var2->name))
+    bool before = true;
+    for (; var2; var2 = var2->next) {
+      if (var == var2) {
+        before = false;
+        continue;
+      }
+      if (var2->is_definition && !strcmp(var->name, var2->name) &&
+          (!var2->is_tentative || before))
         break;
+    }
 
     // If there's another definition, the tentative definition
     // is redundant
